@@ -7,7 +7,7 @@ from sim.seams import Env
 
 PROPERTY = "C23"
 LEVEL = "exploration"
-SCENARIOS = {"start-stop": 3, "churn": 2, "crash": 1}
+SCENARIOS = {"start-stop": 3, "churn": 2, "crash": 1, "fmmu-files": 3}
 TIERS = {"quick": {"runs": 2700, "chunk": 8}, "thorough": {"runs": 50000000, "wall_s": 600, "chunk": 40, "recheck": 16}}
 RULE = ("one run = 2-3 simulated OS processes (baton-passing threads) each doing `async with "
         "ParallelEtherCat(...).run(): take 1-8 FMMU windows; stay a drawn time` (in 'churn' "
@@ -33,7 +33,143 @@ PIN = "/sys/fs/bpf/sim0/programs"
 LOCKDIR = "/run/lock/ebpf.sim0.lock"
 
 
+def run_fmmu_files(tape):
+    """the FMMU address map alone: 2-4 processes come and go following run()'s own
+    lock-directory protocol (register in the lock directory, open the map, take windows,
+    unregister, and whoever empties the directory releases its window through
+    FMMULock.remove()), without bus and dispatcher, so that thousands of runs go into the
+    orderings of creating, opening, filling, allocating and releasing the map"""
+    import ebpfcat.ebpfcat as em
+    from ebpfcat.lock import FMMULock
+
+    env = Env(tape, with_fs=True, faults=WireFaults(delay_buckets=(50e-6,)))
+    world, fs = env.world, env.fs
+    sched = env.use_scheduler(preempt_bound=tape.draw("sched/bound", 7),
+                              preempt_den=[3, 6, 12][tape.draw("sched/den", 3)])
+    sched.stall_rate = [0, 20, 50][tape.draw("cfg/stall-rate", 3)]
+    sched.stall_anywhere = tape.pick("cfg/stall-anywhere", [0, 0, 10, 30])
+    sched.stall_times = (1e-3, 5e-3, 30e-3, 100e-3)
+    nproc = 2 + tape.draw("c23/nproc", 3)
+    pool = tape.pick("cfg/fmmu-pool", [[1, 2, 3], [1, 2], [7, 8], [8, 9, 15], [6, 7, 8, 9]])
+    pool_rate = tape.pick("cfg/fmmu-pool-rate", [50, 70, 85])
+    env.collide["rand/lock"] = lambda a, b: (
+        tape.pick("c23/fmmu-collide", pool) if tape.chance("c23/collide", pool_rate) else None)
+    violations = []
+    state = {}
+    outcomes = {}
+    overlap = [False]
+    MAP = "/run/ebpf/sim0.fmmu"
+
+    def viol(rule, detail, **params):
+        if not violations:
+            violations.append({"rule": rule, "params": params, "detail": detail})
+
+    def observer(p, label):
+        live = {u: st for u, st in state.items() if st.get("inside")}
+        if len(live) >= 2:
+            overlap[0] = True
+        wins = sorted((a, u) for u, st in live.items() for a in st["addrs"])
+        for (a0, u0), (a1, u1) in zip(wins, wins[1:]):
+            if a0 == a1 and u0 != u1:
+                viol("fmmu-window-shared", f"logical address {a0:#x} handed to participants "
+                     f"{u0} and {u1} (at {label} of p{p.pid}; last fs ops {fs.oplog[-8:]})")
+            elif a0 == a1:
+                viol("fmmu-window-repeated", f"logical address {a0:#x} handed out twice to "
+                     f"participant {u0}")
+        bases = sorted((st["base"] >> 22, u) for u, st in live.items())
+        for (b0, u0), (b1, u1) in zip(bases, bases[1:]):
+            if b0 == b1:
+                viol("fmmu-base-shared", f"participants {u0} and {u1} both own FMMU base "
+                     f"window {b0} (at {label} of p{p.pid}; last fs ops {fs.oplog[-8:]})")
+    sched.observer = observer
+
+    def participant(u):
+        rounds = 1 + tape.draw("c23/rounds", 3)
+        stays = [[1e-3, 5e-3, 20e-3, 60e-3][tape.draw("c23/stay", 4)] for _ in range(rounds)]
+        gaps = [[0, 1e-3, 10e-3][tape.draw("c23/gap", 3)] for _ in range(rounds)]
+        start = [0, 0, 1e-3, 10e-3, 30e-3][tape.draw("c23/start", 5)]
+        nwin = 1 + tape.draw("c23/nwin", 4)
+
+        async def main(loop):
+            await asyncio.sleep(start)
+            for r in range(rounds):
+                try:
+                    em.os.makedirs("/run/lock", exist_ok=True)
+                    mine = f"u{u}.{r}"
+                    for attempt in range(8):
+                        tmpdir = em.tempfile.mkdtemp(dir="/run/lock")
+                        with em.open(f"{tmpdir}/{mine}", "x") as f:
+                            f.write("x")
+                        try:
+                            em.os.rename(tmpdir, LOCKDIR)
+                            break
+                        except OSError:
+                            em.shutil.rmtree(tmpdir)
+                        try:
+                            with em.open(f"{LOCKDIR}/{mine}", "x") as f:
+                                f.write("x")
+                            break
+                        except FileNotFoundError:
+                            # the last one just left and took the directory with it:
+                            # (run() would fail here; a user would simply try again)
+                            world.count("c23/join-retried")
+                    else:
+                        raise RuntimeError("could not register in 8 attempts")
+                    lock = FMMULock(MAP)
+                    st = state[u] = dict(inside=True, base=lock.base_addr, addrs=[])
+                    for _ in range(nwin):
+                        st["addrs"].append(lock.get_next_addr())
+                    await asyncio.sleep(stays[r])
+                    st["inside"] = False
+                    em.os.remove(f"{LOCKDIR}/{mine}")
+                    try:
+                        em.os.rmdir(LOCKDIR)
+                    except OSError:
+                        pass
+                    else:
+                        lock.remove()
+                    outcomes[(u, r)] = "ok"
+                except Exception as e:
+                    if u in state:
+                        state[u]["inside"] = False
+                    outcomes[(u, r)] = f"{type(e).__name__}: {e}"
+                await asyncio.sleep(gaps[r])
+        return main
+
+    procs = {}
+    aborted = None
+    with env:
+        try:
+            for u in range(nproc):
+                procs[u] = sched.spawn(f"part{u}", participant(u))
+            aborted = sched.run()
+        except SimStall as e:
+            viol("did-not-finish", str(e))
+    if aborted:
+        viol("did-not-finish", aborted, scenario="fmmu-files")
+    for p in procs.values():
+        if p.exc is not None and type(p.exc).__name__ not in ("SimKilled",):
+            viol("participant-died", f"{p.name}: {type(p.exc).__name__}: {p.exc}",
+                 exception=type(p.exc).__name__)
+    for (u, r), v in sorted(outcomes.items()):
+        if v != "ok":
+            viol("participant-failed", f"participant {u} round {r}: {v}",
+                 exception=v.split(":")[0], teardown_race=False)
+    trace = tuple(sched.trace)
+    return {
+        "violations": violations, "stats": dict(world.counters),
+        "digest": world.digest.hexdigest(), "sim_time": world.now,
+        "schedule": repr(trace), "nontrivial": overlap[0],
+        "sample": {"scenario": "fmmu-files", "participants": nproc,
+                   "outcomes": {f"{u}.{r}": v for (u, r), v in outcomes.items()},
+                   "fs_ops": [(a, b) + tuple(str(x) for x in c[:2]) for a, b, *c in fs.oplog[:30]],
+                   "process_switches": len(trace)},
+    }
+
+
 def run(tape, scenario):
+    if scenario == "fmmu-files":
+        return run_fmmu_files(tape)
     from ebpfcat.ebpfcat import ParallelEtherCat
 
     env = Env(tape, with_kernel=True, with_fs=True,
@@ -42,6 +178,7 @@ def run(tape, scenario):
     sched = env.use_scheduler(preempt_bound=tape.draw("sched/bound", 7),
                               preempt_den=[3, 6, 12][tape.draw("sched/den", 3)])
     sched.stall_rate = [0, 20, 50][tape.draw("cfg/stall-rate", 3)]
+    sched.stall_anywhere = tape.pick("cfg/stall-anywhere", [0, 0, 10, 30])
     if tape.chance("cfg/long-stalls", 35):
         # a node that is slow for longer than the 0.1 s a joiner waits for the program table
         sched.stall_times = (1e-3, 30e-3, 150e-3, 400e-3)
@@ -55,9 +192,20 @@ def run(tape, scenario):
     overlap = [False]
     installers = {}      # pid -> True between rename-success and pin
 
+    DISPATCHER_RULES = ("dispatcher-not-attached", "program-table-not-reachable",
+                        "pinned-table-is-not-the-dispatchers")
+
     def viol(rule, detail, **params):
+        v = {"rule": rule, "params": params, "detail": detail}
         if not violations:
-            violations.append({"rule": rule, "params": params, "detail": detail})
+            violations.append(v)
+        elif len(violations) == 1 and violations[0]["rule"] in DISPATCHER_RULES \
+                and violations[0]["params"].get("teardown_race") \
+                and rule in ("ethertype-shared", "fmmu-window-shared", "fmmu-window-repeated",
+                             "fmmu-base-shared"):
+            # the open finding (teardown race) says nothing about ethertypes and logical
+            # windows: those stay under judgement in such a run, and are reported first
+            violations.insert(0, v)
 
     seen_ops = [0]
 
@@ -178,8 +326,13 @@ def run(tape, scenario):
                 state[u]["dead"] = True
     sched.on_crash.append(crashed)
     # bias the FMMULock base draw towards collisions
+    # (per run: a small pool of window numbers, within one byte of the map or across two,
+    # and how often a draw comes from it - a re-draw after a collision then tends to hit
+    # the neighbour's number or the number somebody is about to draw)
+    pool = tape.pick("cfg/fmmu-pool", [[1, 2, 3], [1, 2], [7, 8], [8, 9, 15], [6, 7, 8, 9]])
+    pool_rate = tape.pick("cfg/fmmu-pool-rate", [50, 70, 85])
     env.collide["rand/lock"] = lambda a, b: (
-        1 + tape.draw("c23/fmmu-collide", 3) if tape.chance("c23/collide", 50) else None)
+        tape.pick("c23/fmmu-collide", pool) if tape.chance("c23/collide", pool_rate) else None)
 
     procs = {}
     aborted = None
